@@ -50,6 +50,7 @@ type Outcome struct {
 	Deadlock bool              `json:"deadlock,omitempty"`
 	Log      []string          `json:"log,omitempty"`
 	DecRLE   string            `json:"decisions,omitempty"`
+	WallMs   int64             `json:"wall_ms"`
 }
 
 type Request struct {
@@ -231,6 +232,9 @@ type runAgg struct {
 	sites       uint64
 	samples     []json.RawMessage
 	sampleNotes []map[string]any
+	slowMs      int64
+	slowSeed    uint64
+	spins       uint64
 }
 
 func runCheck(id, tier string, seed int64) int {
@@ -299,6 +303,10 @@ func runCheck(id, tier string, seed int64) int {
 		}
 		o := r.Outcome
 		agg.runs++
+		if o.WallMs > agg.slowMs {
+			agg.slowMs, agg.slowSeed = o.WallMs, r.Seed
+		}
+		agg.spins += o.Stats.SpinSleeps
 		agg.simNs += o.SimNs
 		agg.events += o.Events
 		agg.picks += o.Stats.Picks
@@ -429,7 +437,7 @@ func runCheck(id, tier string, seed int64) int {
 	for what, n := range knownHits {
 		fmt.Printf("KNOWN-FINDING: property=%s %s (seen in %d runs)\n", id, what, n)
 	}
-	fmt.Printf("simcheck %s tier=%s seed=%d runs=%d distinct_nontrivial=%d sim_s=%.1f wall_s=%.1f build_s=%.1f\n", id, tier, seed, agg.runs, agg.nontrivial, float64(agg.simNs)/1e9, wall, buildS)
+	fmt.Printf("simcheck %s tier=%s seed=%d runs=%d distinct_nontrivial=%d sim_s=%.1f wall_s=%.1f build_s=%.1f slowest_run=%dms(seed %d) spin_sleeps=%d\n", id, tier, seed, agg.runs, agg.nontrivial, float64(agg.simNs)/1e9, wall, buildS, agg.slowMs, agg.slowSeed, agg.spins)
 	if firstBad != nil {
 		for _, v := range firstBad.Outcome.Viol {
 			fmt.Printf("  oracle=%s: %s\n", v.Oracle, v.Msg)
@@ -492,23 +500,24 @@ func writeEvidence(id string, p *Prop, tier string, seed int64, agg *runAgg, wal
 	}
 	w := worlds[p.World]
 	cov := map[string]any{
-		"evaluations":         agg.runs,
-		"distinct_nontrivial": agg.nontrivial,
-		"rule":                "one evaluation = one simulated run of a generated scenario (op script + fault plan + config knobs) under one seeded schedule; a run is non-trivial when at least one injected fault fired or at least one scheduling decision had more than one runnable candidate; distinct = distinct (schedule hash, event-log hash, fired-fault multiset, scenario shape) tuples among those",
-		"samples":             samples,
-		"runs_per_hour":       int(float64(agg.runs) / wall * 3600),
-		"simulated_seconds":   float64(agg.simNs) / 1e9,
-		"events":              agg.events,
-		"scheduler":           map[string]any{"picks": agg.picks, "multi_candidate_picks": agg.multi, "yield_sites_visited": agg.sites, "yields_taken": agg.yields},
-		"faults_fired":        agg.faults,
-		"probes":              agg.probes,
-		"distinct_shapes":     len(agg.shapes),
-		"invalid_scenarios":   agg.invalid,
-		"known_findings_seen": knownHits,
-		"world":               w.Name,
-		"real_code":           p.Real,
-		"stubbed":             p.Stub,
-		"build_s":             buildS,
+		"evaluations":          agg.runs,
+		"distinct_nontrivial":  agg.nontrivial,
+		"rule":                 "one evaluation = one simulated run of a generated scenario (op script + fault plan + config knobs) under one seeded schedule; a run is non-trivial when at least one injected fault fired or at least one scheduling decision had more than one runnable candidate; distinct = distinct (schedule hash, event-log hash, fired-fault multiset, scenario shape) tuples among those",
+		"samples":              samples,
+		"runs_per_hour":        int(float64(agg.runs) / wall * 3600),
+		"simulated_seconds":    float64(agg.simNs) / 1e9,
+		"events":               agg.events,
+		"scheduler":            map[string]any{"picks": agg.picks, "multi_candidate_picks": agg.multi, "yield_sites_visited": agg.sites, "yields_taken": agg.yields},
+		"faults_fired":         agg.faults,
+		"probes":               agg.probes,
+		"distinct_shapes":      len(agg.shapes),
+		"invalid_scenarios":    agg.invalid,
+		"known_findings_seen":  knownHits,
+		"world":                w.Name,
+		"real_code":            p.Real,
+		"stubbed":              p.Stub,
+		"build_s":              buildS,
+		"spin_sleeps_injected": agg.spins,
 	}
 	ev := map[string]any{
 		"property_id": id,
